@@ -381,9 +381,159 @@ def main_c40(run):
                       extra={"exhaustive": True})
 
 
+# ---------------------------------------------------------------- C41
+PROGRAMS = {
+    "ok": ('(import sys) (print "A" (+ 1 2)) (print "ARGV" (cut sys.argv 1 None)) (print "ARGV0" (get sys.argv 0))', 0),
+    "exit3": ('(import sys) (print "ARGV" (cut sys.argv 1 None)) (print "ARGV0" (get sys.argv 0)) (sys.exit 3) (print "no")', 3),
+    "raise": ('(import sys) (print "ARGV" (cut sys.argv 1 None)) (print "ARGV0" (get sys.argv 0)) (/ 1 0) (print "no")', 1),
+    "synerr": ('(print "never") (if)', 1),
+}
+
+
+def main_c41(run):
+    import os
+    import subprocess
+    from concurrent.futures import ThreadPoolExecutor
+    from ..core import PY
+    rng = random.Random(run.seed)
+    q = run.quick
+    r = tlc.run("HyCmdline", tlc.cfg(constants={"MaxLead": 1 if q else 2, "MaxRest": 2},
+                                     invariants=["PassThrough", "ModeRight", "FlagsRight", "Progress", "Export"]),
+                run.work, workers=8, coverage=True, label="cmdline")
+    if r.violated:
+        raise MachineryError(f"HyCmdline: {r.violated} violated")
+    run.add_tlc(r, "HyCmdline exhaustive")
+    lines = r.ex("LINE")
+    run.log(f"TLC: {r.distinct} states, {len(lines)} command lines")
+    # group by (lead, rest): the same program/arguments under every designator
+    groups = {}
+    for ln in lines:
+        groups.setdefault((tuple(ln["lead"]), tuple(ln["rest"])), []).append(ln)
+    keys = sorted(groups)
+    pick = rng.sample(keys, min(len(keys), 22 if q else 500))
+    # always include the option-like arguments
+    for k in keys:
+        if k[1] in (("-B",), ("--spy", "-c"), ("--", "-m"), ("-i",), ("-x", "--foo=bar")) and k[0] == ():
+            pick.append(k)
+    pick = sorted(set(pick))
+    wd = run.work / "cmd"
+    wd.mkdir()
+    jobs = []
+    for pname, (ptext, code) in PROGRAMS.items():
+        (wd / f"prog_{pname}.hy").write_text(ptext + "\n")
+        (wd / f"modx_{pname}.hy").write_text(ptext + "\n")
+    for k in pick:
+        for ln in groups[k]:
+            pname = rng.choice(list(PROGRAMS)) if q else None
+            for pn in ([pname] if pname else list(PROGRAMS)):
+                jobs.append((ln, pn))
+    # the same program must be used for all designators of a group: re-draw per group
+    jobs = []
+    for k in pick:
+        pns = [rng.choice(list(PROGRAMS))] if q else list(PROGRAMS)
+        if q and k[0] == () and len(k[1]) <= 1:
+            pns = list(PROGRAMS)
+        for pn in pns:
+            for ln in groups[k]:
+                jobs.append((ln, pn))
+    CONC = {"plain": "foo"}
+    env = dict(os.environ, PYTHONPYCACHEPREFIX=str(run.work / "pyc"))
+    env.pop("PYTHONDONTWRITEBYTECODE", None)   # cache hy/core/*.hy in a run-private directory
+    env.pop("HY_VERIF_TRACE", None)
+    subprocess.run([PY, "-m", "hy", "-c", "1"], cwd=wd, env=env, capture_output=True, timeout=120)
+
+    def concretize(ln, pn):
+        ptext = PROGRAMS[pn][0]
+        toks = list(ln["lead"])
+        d = ln["desig"]
+        stdin = None
+        m = {"-c CODE": ["-c", ptext], "-cCODE": ["-c" + ptext], "-Bc CODE": ["-Bc", ptext],
+             "-m MOD": ["-m", f"modx_{pn}"], "-mMOD": [f"-mmodx_{pn}"], "FILE": [f"prog_{pn}.hy"],
+             "-": ["-"], "-- FILE": ["--", f"prog_{pn}.hy"], "-- -": ["--", "-"]}[d]
+        if d in ("-", "-- -"):
+            stdin = ptext
+        toks += m + [CONC.get(x, x) for x in ln["rest"]]
+        return toks, stdin
+
+    def runone(job):
+        ln, pn = job
+        toks, stdin = concretize(ln, pn)
+        p = subprocess.run([PY, "-m", "hy"] + toks, cwd=wd, env=env, input=stdin if stdin is not None else "",
+                           capture_output=True, text=True, timeout=120)
+        return ln, pn, toks, p.returncode, p.stdout, p.stderr
+
+    with ThreadPoolExecutor(max_workers=16) as ex:
+        results = list(ex.map(runone, jobs))
+    run.log(f"{len(results)} hy processes")
+    by_group = {}
+    for ln, pn, toks, rc, out, err in results:
+        mode = ln["mode"]
+        ptext, want_rc = PROGRAMS[pn]
+        rest = [CONC.get(x, x) for x in ln["pargs"]]
+        run.case((tuple(toks),))
+        key = f"{ln['desig']} | lead={ln['lead']} rest={ln['rest']} prog={pn}"
+        # expected stdout from the spec's decision
+        argv0 = {"c": "-c", "stdin": "-", "file": f"prog_{pn}.hy"}.get(mode)
+        exp = []
+        if pn == "ok":
+            exp.append("A 3")
+        if pn != "synerr":
+            exp.append("ARGV " + repr(rest).replace(",", "").replace("'", '"') if False else None)
+        got_lines = out.splitlines()
+        argv_line = next((x for x in got_lines if x.startswith("ARGV ")), None)
+        argv0_line = next((x for x in got_lines if x.startswith("ARGV0 ")), None)
+        problems = []
+        if rc != want_rc:
+            problems.append(f"exit status {rc}, expected {want_rc}")
+        if pn == "synerr":
+            if out.strip():
+                problems.append(f"stdout {out!r} for a program that does not compile")
+        else:
+            if argv_line is None or argv_line != "ARGV " + str(rest):
+                problems.append(f"program saw arguments {argv_line!r}, expected {'ARGV ' + str(rest)!r}")
+            if mode == "m":
+                ok0 = argv0_line is not None and argv0_line.endswith(f"modx_{pn}.hy") and os.path.isabs(argv0_line[6:])
+            elif mode == "file":
+                # "the script name (it is OS dependent whether this is a full pathname or not)"
+                ok0 = argv0_line is not None and os.path.realpath(os.path.join(wd, argv0_line[6:])) == \
+                    os.path.realpath(wd / argv0)
+            else:
+                ok0 = argv0_line == "ARGV0 " + argv0
+            if not ok0:
+                problems.append(f"sys.argv[0] is {argv0_line!r} in mode {mode}")
+            if "no" in got_lines:
+                problems.append("code after exit/raise ran")
+            if pn == "ok" and "A 3" not in got_lines:
+                problems.append("result line missing")
+        if problems:
+            fkey = "file-mode" if mode == "file" and "too many values to unpack" in err else key
+            run.violation(fkey, f"hy {' '.join(toks)!r}: " + "; ".join(problems) + f"; stderr tail: {err[-160:]!r}",
+                          {"argv": toks, "mode": mode, "program": pn})
+        # mode-independent part of the output, for the cross-mode comparison
+        indep = [x for x in got_lines if not x.startswith("ARGV0 ")]
+        by_group.setdefault((tuple(ln["lead"]), tuple(ln["rest"]), pn), {})[ln["desig"]] = (rc, indep)
+    ndis = 0
+    for g, d in by_group.items():
+        vals = {json.dumps(v) for v in d.values()}
+        if len(vals) > 1:
+            ndis += 1
+            run.violation("modes-differ:" + json.dumps(g), f"lead/rest/program {g}: output or exit status differs "
+                          f"between invocation modes: {d}", {"group": list(g), "by_designator": {k: list(v) for k, v in d.items()}})
+    run.cov["traces_validated_against_impl"] = len(results)
+    run.cov["groups_compared_across_modes"] = len(by_group)
+    run.sample({"argv": results[0][2], "rc": results[0][3], "stdout": results[0][4]})
+    run.sample({"argv": results[-1][2], "rc": results[-1][3], "stdout": results[-1][4]})
+    return run.finish("model_checking",
+                      "command lines generated by TLC from (lead options, designator in 9 spellings over 4 modes, program "
+                      "arguments incl. option-like ones); HyCmdline's scanner invariants are checked on all of them; a "
+                      "sample of (lead, rest) groups is run as real `python -m hy` processes under every designator with 4 "
+                      "programs (ok / sys.exit 3 / raise / does not compile): arguments seen, sys.argv[0], exit status "
+                      "compared with the spec and across modes")
+
+
 # ---------------------------------------------------------------- dispatch
 def main(run):
-    return {"C39": main_c39, "C40": main_c40}[run.pid](run)
+    return {"C39": main_c39, "C40": main_c40, "C41": main_c41}[run.pid](run)
 
 
 def replay(run, path):
